@@ -892,8 +892,8 @@ func c18r12(rc *core.RC) {
 		fn := p.FuncName(fd)
 		rc.Touch(fn)
 		isCursor := func(e ast.Expr) bool {
-			id, ok := core.Unparen(e).(*ast.Ident)
-			return ok && id.Name == "cursor"
+			_, ok := core.Unparen(e).(*ast.Ident)
+			return ok && isCursorExpr(e)
 		}
 		readsCursorByte := func(e ast.Expr) bool {
 			ix, ok := core.Unparen(e).(*ast.IndexExpr)
